@@ -50,6 +50,7 @@ type vfViewGen struct {
 	rng    *verifrt.Rand
 	ids    []string
 	latest map[string]*NodeState // newest incarnation created so far per id
+	hist   map[string][]*NodeState // every incarnation created so far per id
 	pool   []*ClusterView
 	owner  []string
 }
@@ -61,6 +62,10 @@ func (g *vfViewGen) state(id string) *NodeState {
 		st.Status = MemberStatusUp
 		st.Labels[LabelDatacenter] = "dc1"
 		g.latest[id] = st
+		if g.hist == nil {
+			g.hist = map[string][]*NodeState{}
+		}
+		g.hist[id] = append(g.hist[id], st)
 	}
 	return st
 }
@@ -92,10 +97,22 @@ func (g *vfViewGen) gen(n int) {
 			case 2: // restart of id: generation bump as in tryJoinSeeds
 				prev := g.state(id)
 				ns := prev.Clone()
-				ns.Generation = prev.Generation + 1
-				ns.LogicalClock = prev.LogicalClock + 1
+				switch g.rng.Intn(4) {
+				case 0: // restart that remembers its logical clock (tryJoinSeeds with the previous incarnation in view)
+					ns.Generation = prev.Generation + 1
+					ns.LogicalClock = prev.LogicalClock + 1
+				case 1: // restart that lost its state: new generation, logical clock starts over
+					ns.Generation = prev.Generation + 1
+					ns.LogicalClock = 1
+				case 2: // same generation, state change bumps the logical clock
+					ns.LogicalClock = prev.LogicalClock + uint64(1+g.rng.Intn(6))
+				default: // new generation, clock far ahead or behind
+					ns.Generation = prev.Generation + 1
+					ns.LogicalClock = uint64(1 + g.rng.Intn(9))
+				}
 				ns.Timestamp = prev.Timestamp + int64(g.rng.Intn(1000)) - 300 // clocks may step back across restarts
 				g.latest[id] = ns
+				g.hist[id] = append(g.hist[id], ns)
 				v.AddMember(ns)
 				if id == owner {
 					v.IncrementVersion(owner)
@@ -116,12 +133,9 @@ func (g *vfViewGen) gen(n int) {
 					v.MergeFromWithOptions(o.Snapshot(), MergeOptions{VersionConcurrentStrategy: g.rng.Intn(3)})
 				}
 			case 7: // an older incarnation arrives late (stale JoinRequest / stale gossip)
-				st := g.state(id).Clone()
-				if st.Generation > 1 {
-					st.Generation--
-					st.LogicalClock--
-				}
-				v.AddMember(st)
+				g.state(id)
+				h := g.hist[id]
+				v.AddMember(h[g.rng.Intn(len(h))].Clone())
 			}
 			if g.rng.Intn(4) == 0 {
 				v.Epoch += int64(g.rng.Intn(3))
